@@ -267,7 +267,7 @@ def worker(cfg):
 
 
 def configs(tier, seed):
-    N = 12 if tier == 'quick' else 60
+    N = 12 if tier == 'quick' else 400
     cfgs = [{'wave': w, 'n': n} for w in WAVES for n in range(0, N + 1)]
     grids = [[(0, 1), (1, 8), (1, 4), (1, 2), (5, 8), (3, 4), (1, 1)], [(1, 2), (0, 1), (3, 8), (9, 8)], [(1, 8), (1, 2), (7, 8)], [(1, 4), (3, 4), (1, 3)], [(3, 4), (1, 4), (0, 1)]]
     for w in WAVES:
